@@ -239,7 +239,7 @@ Proof.
       cbn [map app]. destruct (map hline hl ++ [[]; tb ++ trailing]) as [|l1 L1] eqn:E; [destruct (map hline hl); discriminate|].
       change (join CRLF (hline p :: l1 :: L1)) with (hline p ++ CRLF ++ join CRLF (l1 :: L1)).
       rewrite !app_length. cbn [length CRLF]. lia. }
-  cbn [rev app]. rewrite Est. rewrite status_ok_good by assumption.
+  cbn [rev app negb]. rewrite andb_false_r. cbn [andb]. rewrite Est. rewrite status_ok_good by assumption.
   rewrite declared_clen by assumption. rewrite Hread, Hconv. reflexivity.
 Qed.
 
@@ -310,10 +310,10 @@ Proof.
   assert (HE : Forall (fun c => spb c = true) E).
   { subst E. destruct (map hline hl ++ tl); [constructor|apply crlf_spb]. }
   destruct (str_status st E Hs HE) as [E0 Hhttp]. rewrite E0, Hhttp.
-  assert (Hdec : negb text && negb (ascii_only st) = false).
+  assert (Hdec : negb text && negb false && negb (ascii_only st) = false).
   { destruct text; [reflexivity|]. rewrite Hasc by reflexivity. reflexivity. }
-  rewrite Hdec.
   rewrite rhdr_loop_join with (b := b); [|assumption|apply headers_fuel|assumption].
+  rewrite Hdec.
   cbn [rev app]. rewrite status_ok_good by assumption. reflexivity.
 Qed.
 
